@@ -913,6 +913,8 @@ fn cmd_check(a: &Args) -> i32 {
                 "eintr": sum.eintr,
                 "bytes_read": sum.bytes_read,
                 "reads_that_escaped_to_the_real_fs": sum.fs_escapes,
+                "thread_bodies_run_as_atomic_tasks": sum.thread_spawns,
+                "thread_bodies_deferred_to_join": sum.thread_spawns_deferred,
                 "hard_io_faults_in_gating_runs": "0 (deliberately not injected in gating runs: C18 does not say what a generator must do when its input is unreadable, see DESIGN §4.4)",
             },
             "hard_fault_exploration_not_gating": {
